@@ -133,7 +133,10 @@ def run(ctx, ck) -> None:
     for q, s in kinds.items():
         if s.taints:
             for t in s.taints:
-                ck.bad('J3', t.node, f'{s.cls.name}.mv is not trace-safe: {t.why}', instance=f'{s.cls.name} taint')
+                if t.definite:
+                    ck.bad('J3', t.node, f'{s.cls.name}.mv is not trace-safe: {t.why}', instance=f'{s.cls.name} taint')
+                else:
+                    ck.incomplete('J3', t.node, f'{s.cls.name}.mv: cannot decide trace safety: {t.why}', instance=f'{s.cls.name} taint')
         else:
             ck.ok('J3', s.fn, f'{s.cls.name}.mv: control flow, loop bounds, int()/range() and numpy calls only see static values', instance=s.cls.name)
     pack = table.by_name('PackOperator')
